@@ -463,6 +463,14 @@ class SimulatorBackend(LocalBackend):
         # Process final ``CompleteEvent``
         self._time_keeper.advance_to(time_complete + 1e-3)
         self._process_events_until_now()
+        # Results of this trial which arrived after the decision to stop or
+        # pause it was taken (i.e., before the stop signal reached the worker)
+        # must not be delivered anymore. Without this, they would be returned
+        # by the next ``fetch_status_results`` if the trial is resumed before
+        # then. We count them as seen
+        result_list = self._next_results_to_fetch.pop(trial_id, None)
+        if result_list is not None:
+            self._last_metric_seen_index[trial_id] += len(result_list)
         self._time_keeper.mark_exit()
 
     def _run_job_and_collect_results(
